@@ -6,6 +6,7 @@ from .. import astq
 from .. import sym as S
 from ..cfg import CFG
 from ..dataflow import ReachingDefs, containing_node
+from ..report import MISSING
 from ..model import AnalysisError
 from ..symeval import SymEval
 from . import cli_common as cc
@@ -140,8 +141,8 @@ def reader_accepts_writer(ctx, R="R-C17-reader-accepts-writer"):
     ctx.floor(R, n, 2)
     # the first step reshapes to (2, -1)
     rs = [n_ for n_ in tries[0].body if isinstance(n_, ast.Assign) and astq.is_self_attr(n_.targets[0], "self", "_stats")]
-    ok = len(rs) >= 1 and astq.text(rs[0].value).replace(" ", "") == "self._stats.reshape((2,-1))"
-    ctx.check(ok, R, f, rs[0] if rs else f.node, "flat statistics are reshaped to 2 rows", "first step is %s" % (astq.text(rs[0].value) if rs else None))
+    ok = len(rs) >= 1 and astq.eq_text(rs[0].value, "self._stats.reshape((2,-1))")
+    ctx.check(ok, R, f, rs[0] if rs else MISSING(f.node), "flat statistics are reshaped to 2 rows", "first step is %s" % (astq.text(rs[0].value) if rs else None))
 
 
 def save_structure(ctx, R="R-C17-save-guard"):
@@ -157,16 +158,16 @@ def save_structure(ctx, R="R-C17-save-guard"):
     disp = body[1] if len(body) > 1 else None
     ctx.need(isinstance(disp, ast.If), R2, "suffix dispatch not found in save")
     t1 = astq.text(disp.test).replace(" ", "")
-    ok = t1 == "wfilename.endswith('.npy')" and len(disp.body) == 1 and astq.text(disp.body[0]).replace(" ", "") == "np.save(wfilename,self._stats)"
+    ok = t1 == "wfilename.endswith('.npy')" and len(disp.body) == 1 and astq.eq_text(disp.body[0], "np.save(wfilename,self._stats)")
     ctx.check(ok, R2, f, disp, ".npy targets are written with np.save(wfilename, stats)", ".npy branch is %s -> %s" % (t1, astq.text(disp.body[0])[:60]))
     npz = disp.orelse[0] if disp.orelse and isinstance(disp.orelse[0], ast.If) else None
-    ctx.need(npz is not None and astq.text(npz.test).replace(" ", "") == "wfilename.endswith('.npz')", R2, ".npz branch not found")
+    ctx.need(npz is not None and astq.eq_text(npz.test, "wfilename.endswith('.npz')"), R2, ".npz branch not found")
     raw = npz.orelse
-    ok = len(raw) == 1 and astq.text(raw[0]).replace(" ", "") == "self._stats.tofile(wfilename)"
-    ctx.check(ok, R2, f, raw[0] if raw else npz, "any other target is written raw with stats.tofile(wfilename)", "raw branch is %s" % [astq.text(s)[:60] for s in raw])
+    ok = len(raw) == 1 and astq.eq_text(raw[0], "self._stats.tofile(wfilename)")
+    ctx.check(ok, R2, f, raw[0] if raw else MISSING(npz), "any other target is written raw with stats.tofile(wfilename)", "raw branch is %s" % [astq.text(s)[:60] for s in raw])
     st = [n for n in ast.walk(npz) if isinstance(n, ast.Assign) and isinstance(n.targets[0], ast.Subscript) and astq.text(n.value) == "self._stats"]
     ok = len(st) == 1 and astq.text(st[0].targets[0].slice) == "key"
-    ctx.check(ok, R2, f, st[0] if st else npz, "the statistics matrix is stored in the archive under `key`")
+    ctx.check(ok, R2, f, st[0] if st else MISSING(npz), "the statistics matrix is stored in the archive under `key`")
     sv = [c for c in ast.walk(npz) if isinstance(c, ast.Call) and prog.qualify(f.module, c.func, f) in ("numpy.savez", "numpy.savez_compressed")]
     kinds = {prog.qualify(f.module, c.func, f) for c in sv}
     ok = kinds == {"numpy.savez", "numpy.savez_compressed"} and all(astq.text(c.args[0]) == "wfilename" and any(k.arg is None for k in c.keywords) for c in sv)
@@ -189,7 +190,7 @@ def save_structure(ctx, R="R-C17-save-guard"):
                                        "requires that the flag decides" % ("True" if "overwrite" in g else "False"))
     tr = [a for a in astq.ancestors(pm, loads[0]) if isinstance(a, ast.Try)]
     ok = len(tr) == 1 and all(prog.dotted(h.type) in ("IOError", "OSError", "FileNotFoundError") for h in tr[0].handlers)
-    ctx.check(ok, R3, f, tr[0] if tr else npz, "a missing archive is tolerated (IOError caught) and nothing else is swallowed")
+    ctx.check(ok, R3, f, tr[0] if tr else MISSING(npz), "a missing archive is tolerated (IOError caught) and nothing else is swallowed")
 
 
 def default_key(ctx, R="R-C17-default-key"):
@@ -225,11 +226,11 @@ def loader(ctx, R="R-C17-loader"):
     calls = [c for c in astq.calls_in(loops[0]) if astq.is_name(c.func, "read_signal")]
     ok = len(calls) == 1 and astq.text(calls[0].args[0]) == "rfilename" and any(k.arg == "dtype" and astq.text(k.value) == "dtype" for k in calls[0].keywords) \
         and any(k.arg is None for k in calls[0].keywords)
-    ctx.check(ok, R, init, calls[0] if calls else loops[0], "statistics are read with read_signal(rfilename, dtype=..., **kwargs): every target save can write has a reader")
+    ctx.check(ok, R, init, calls[0] if calls else MISSING(loops[0]), "statistics are read with read_signal(rfilename, dtype=..., **kwargs): every target save can write has a reader")
     san = [c for c in astq.func_calls(init) if astq.attr_call(c, "_sanitize_stats")]
     pm = astq.parents(init)
     g = [astq.text(a.test).replace(" ", "") for a in astq.ancestors(pm, san[0]) if isinstance(a, ast.If)] if san else []
-    ctx.check(bool(san) and "len(self._stats.shape)==1" in g, R, init, san[0] if san else init.node,
+    ctx.check(bool(san) and "len(self._stats.shape)==1" in g, R, init, san[0] if san else MISSING(init.node),
               "only flat (raw binary) statistics go through the float-width heuristic; .npy/.npz matrices are used as loaded")
     # read_signal has readers for npy / npz (key) / file
     rs = prog.func("util.read_signal")
